@@ -588,23 +588,19 @@ def refinement(run, F):
                         bad = {'storage bit': p, 'holds': str(bit(data, p)), 'expected': str(want)}
                 what = '%s: afterwards bit p == source bit p for every p < %d, padding 0' % ('copy constructor' if fn.kind == 'ctor' else 'operator=', cap)
             elif fn.m == 'operator&=':
-                data = fresh('s')
-                other = fresh('o')
-                # `other` is a reference parameter to another bit array: bind it as an object
-                env_this = {'_storage': data}
-                oth = {'_storage': other}
-                p0 = fn.params[0]
-                env = {p0['id']: ['ref', ('obj', oth), None]}
-                # run with a pre-bound environment
-                try:
-                    I.stmt(fn.body, fn, env_this, env, 0)
-                except bitprov._Ret:
-                    pass
-                cases += 1
-                for p in range(ext * 8):
-                    want = ('and',) + tuple(sorted([('s', p), ('o', p)], key=repr)) if p < cap else 0
-                    if bit(data, p) != want and bad is None:
-                        bad = {'storage bit': p, 'holds': str(bit(data, p)), 'expected': str(want)}
+                # `other` is a reference parameter to another bit array: handed in as an object. One evaluation per combination of the zero
+                # tests on data the function performs (none on today's code): a path that assumed some bits to be zero is compared with the
+                # expected result under the same assumption
+                paths = I.explore(fn, lambda: {'_storage': fresh('s')}, [{'_storage': fresh('o')}], limit=64)
+                cases += len(paths)
+                for dec_, res_, this_after, zero_ in paths:
+                    data = this_after['_storage']
+                    for p in range(ext * 8):
+                        want = ('and',) + tuple(sorted([('s', p), ('o', p)], key=repr)) if p < cap else 0
+                        got = bitprov.assume_zero(bit(data, p), zero_)
+                        want = bitprov.assume_zero(want, zero_)
+                        if got != want and bad is None:
+                            bad = {'storage bit': p, 'holds': str(got), 'expected': str(want), 'bits assumed zero on this path': len(zero_)}
                 what = 'operator&=: bit p becomes (this[p] AND other[p]) for every p < %d, padding stays 0' % cap
             else:
                 continue
